@@ -43,7 +43,7 @@ CODES = [None, 0, 3, 'msg']
 def run_case(case):
     from circuits import BaseComponent, handler
     from vlib.prog import World
-    w = World({'handlers': case['handlers']})
+    w = World({'handlers': case['handlers'], 'mk': case.get('mk')})
     problems = []
     counts = dict.fromkeys(REQUIRED_OBLIGATIONS, 0)
     marks = set()
@@ -385,7 +385,10 @@ def gen_case(rng):
         for c in cycles:
             if rng.random() < 0.6:
                 c['pre_sysexit'] = pcode
-    return {'handlers': hs, 'cycles': cycles, 'kind': kind, 'code': code}
+    case = {'handlers': hs, 'cycles': cycles, 'kind': kind, 'code': code}
+    if rng.random() < 0.15:
+        case['mk'] = rng.choice(['attr', 'renamed'])
+    return case
 
 
 def plan(tier, seed):
